@@ -179,7 +179,7 @@ func genC14(rt *rapid.T) C14Sc {
 		switch op.Op {
 		case "set", "delete", "get", "typed":
 			op.Key = key("key")
-			op.Val = rapid.IntRange(0, 18).Draw(rt, "val")
+			op.Val = rapid.IntRange(0, 25).Draw(rt, "val")
 		case "merge":
 			if uniform(rt, 6, "nilmerge") == 0 {
 				op.Nil = true
@@ -189,11 +189,11 @@ func genC14(rt *rapid.T) C14Sc {
 			for j := 0; j < nk; j++ {
 				op.Keys = append(op.Keys, key("mkey"))
 			}
-			op.Vals = []int{rapid.IntRange(0, 18).Draw(rt, "mv"), rapid.IntRange(0, 18).Draw(rt, "mv2")}
+			op.Vals = []int{rapid.IntRange(0, 25).Draw(rt, "mv"), rapid.IntRange(0, 25).Draw(rt, "mv2")}
 		case "mergesnap", "mutsnap", "mutkeys":
 			op.Snap = rapid.IntRange(0, 7).Draw(rt, "snap")
 			op.Key = key("skey")
-			op.Val = rapid.IntRange(0, 18).Draw(rt, "sval")
+			op.Val = rapid.IntRange(0, 25).Draw(rt, "sval")
 			op.Nil = rapid.Bool().Draw(rt, "del")
 		}
 		sc.Ops = append(sc.Ops, op)
@@ -208,3 +208,16 @@ func TestC14(t *testing.T) {
 }
 
 func init() { registerReplay("C14", checkC14) }
+
+// FuzzC14: coverage-guided search over operation sequences (thorough tier).
+func FuzzC14(f *testing.F) {
+	f.Add([]byte{0})
+	f.Add([]byte("set-merge-clear-getall-mutate"))
+	f.Fuzz(rapid.MakeFuzz(func(rt *rapid.T) {
+		sc := genC14(rt)
+		if v := checkC14(nil, sc); v.Violation != "" {
+			writeFuzzReplay("C14", sc, v)
+			rt.Fatalf("VIOLATION C14: %s", v.Violation)
+		}
+	}))
+}
